@@ -1652,13 +1652,6 @@ bool QXmppMessage::parseExtension(const QDomElement &element, QXmpp::SceMode sce
             }
             return true;
         }
-        // XEP-0353: Jingle Message Initiation
-        if (QXmppJingleMessageInitiationElement::isJingleMessageInitiationElement(element)) {
-            QXmppJingleMessageInitiationElement jingleMessageInitiationElement;
-            jingleMessageInitiationElement.parse(element);
-            d->jingleMessageInitiationElement = jingleMessageInitiationElement;
-            return true;
-        }
         // XEP-0359: Unique and Stable Stanza IDs
         if (checkElement(element, u"stanza-id", ns_sid)) {
             d->stanzaIds.push_back(QXmppStanzaId {
@@ -1692,13 +1685,6 @@ bool QXmppMessage::parseExtension(const QDomElement &element, QXmpp::SceMode sce
             return true;
         }
 #endif
-        // XEP-0482: Call Invites
-        if (QXmppCallInviteElement::isCallInviteElement(element)) {
-            QXmppCallInviteElement callInviteElement;
-            callInviteElement.parse(element);
-            d->callInviteElement = callInviteElement;
-            return true;
-        }
     }
     if (sceMode & QXmpp::SceSensitive) {
         if (element.tagName() == u"body") {
@@ -1877,6 +1863,21 @@ bool QXmppMessage::parseExtension(const QDomElement &element, QXmpp::SceMode sce
 
     // read from both public and private extensions:
 
+    // (serialized in the sensitive part, but also accepted in the public part)
+    // XEP-0353: Jingle Message Initiation
+    if (QXmppJingleMessageInitiationElement::isJingleMessageInitiationElement(element)) {
+        QXmppJingleMessageInitiationElement jingleMessageInitiationElement;
+        jingleMessageInitiationElement.parse(element);
+        d->jingleMessageInitiationElement = jingleMessageInitiationElement;
+        return true;
+    }
+    // XEP-0482: Call Invites
+    if (QXmppCallInviteElement::isCallInviteElement(element)) {
+        QXmppCallInviteElement callInviteElement;
+        callInviteElement.parse(element);
+        d->callInviteElement = callInviteElement;
+        return true;
+    }
     // XEP-0428: Fallback Indication
     if (checkElement(element, u"fallback", ns_fallback_indication)) {
         if (auto fallback = QXmppFallback::fromDom(element)) {
